@@ -124,4 +124,124 @@ theorem calcHash_root (leaves : List α) (hne : leaves ≠ []) (hn : leaves.leng
   unfold merkleRoot treeHeight
   rw [hr, heightFrom_eq leaves.length 64 0 j hj64 hlt hle]
 
+/-! ### soundness of extraction under a collision-free node hash -/
+
+theorem extractNode_sound (inj : ∀ a b c d : α, hh a b = hh c d → a = c ∧ b = d) (leaves : List α) :
+    ∀ (h pos : Nat) (bits : List Bool) (hs : List α) (r : α) (m : List (Nat × α)) (bits' : List Bool)
+      (hs' : List α), pos < width leaves.length h →
+      extractNode hh leaves.length h pos bits hs = some (r, m, bits', hs') →
+      r = calcHash hh dflt leaves h pos →
+      ∀ p ∈ m, p.1 < leaves.length ∧ p.2 = leaves.getD p.1 dflt := by
+  intro h
+  induction h with
+  | zero =>
+    intro pos bits hs r m bits' hs' hpos hex hr p hp
+    have hw : width leaves.length 0 = leaves.length := by simp [width]
+    rw [hw] at hpos
+    cases bits with
+    | nil => simp [extractNode] at hex
+    | cons b bits =>
+      cases hs with
+      | nil => simp [extractNode] at hex
+      | cons x hs =>
+        simp only [extractNode, Option.some.injEq, Prod.mk.injEq] at hex
+        obtain ⟨hx, hm, _, _⟩ := hex
+        subst hm
+        cases b with
+        | false => simp at hp
+        | true =>
+          simp only [if_true, List.mem_singleton] at hp
+          subst hp
+          refine ⟨hpos, ?_⟩
+          simp only [calcHash] at hr
+          show x = leaves.getD pos dflt
+          rw [hx, hr]
+  | succ h ih =>
+    intro pos bits hs r m bits' hs' hpos hex hr p hp
+    have hwl : pos * 2 < width leaves.length h := by
+      rw [width_succ] at hpos; omega
+    cases bits with
+    | nil => simp [extractNode] at hex
+    | cons b bits =>
+      cases b with
+      | false =>
+        cases hs with
+        | nil => simp [extractNode] at hex
+        | cons x hs =>
+          simp only [extractNode, if_true, Option.some.injEq, Prod.mk.injEq] at hex
+          obtain ⟨_, hm, _, _⟩ := hex
+          subst hm
+          simp at hp
+      | true =>
+        simp only [extractNode, Bool.true_eq_false, if_false] at hex
+        cases hl : extractNode hh leaves.length h (pos * 2) bits hs with
+        | none => rw [hl] at hex; simp at hex
+        | some lres =>
+          obtain ⟨l, m1, bits1, hs1⟩ := lres
+          rw [hl] at hex
+          simp only [] at hex
+          by_cases hw : pos * 2 + 1 < width leaves.length h
+          · rw [if_pos hw] at hex
+            cases hr2 : extractNode hh leaves.length h (pos * 2 + 1) bits1 hs1 with
+            | none => rw [hr2] at hex; simp at hex
+            | some rres =>
+              obtain ⟨r', m2, bits2, hs2⟩ := rres
+              rw [hr2] at hex
+              simp only [Option.some.injEq, Prod.mk.injEq] at hex
+              obtain ⟨hroot, hm, _, _⟩ := hex
+              subst hm
+              have hc : calcHash hh dflt leaves (h + 1) pos =
+                  hh (calcHash hh dflt leaves h (pos * 2)) (calcHash hh dflt leaves h (pos * 2 + 1)) := by
+                simp [calcHash, hw]
+              rw [← hroot, hc] at hr
+              obtain ⟨e1, e2⟩ := inj _ _ _ _ hr
+              rcases List.mem_append.mp hp with hp | hp
+              · exact ih (pos * 2) bits hs l m1 bits1 hs1 hwl hl e1 p hp
+              · exact ih (pos * 2 + 1) bits1 hs1 r' m2 bits2 hs2 hw hr2 e2 p hp
+          · rw [if_neg hw] at hex
+            simp only [Option.some.injEq, Prod.mk.injEq] at hex
+            obtain ⟨hroot, hm, _, _⟩ := hex
+            subst hm
+            have hc : calcHash hh dflt leaves (h + 1) pos =
+                hh (calcHash hh dflt leaves h (pos * 2)) (calcHash hh dflt leaves h (pos * 2)) := by
+              simp [calcHash, hw]
+            rw [← hroot, hc] at hr
+            obtain ⟨e1, _⟩ := inj _ _ _ _ hr
+            exact ih (pos * 2) bits hs l m1 bits1 hs1 hwl hl e1 p hp
+
+/-- any partial merkle tree (however produced) that extracts to the block's merkle root proves only
+    real transactions of the block at their real positions, if the node hash is collision-free -/
+theorem extract_sound (inj : ∀ a b c d : α, hh a b = hh c d → a = c ∧ b = d) (leaves : List α)
+    (hn : leaves.length ≤ 2 ^ 64) (flags : List UInt8) (hashes : List α) (m : List (Nat × α))
+    (hex : extract hh leaves.length flags hashes = some (merkleRoot hh dflt leaves, m)) :
+    ∀ p ∈ m, p.1 < leaves.length ∧ p.2 = leaves.getD p.1 dflt := by
+  unfold extract at hex
+  by_cases h0 : leaves.length = 0
+  · rw [if_pos h0] at hex; cases hex
+  · rw [if_neg h0] at hex
+    have hne : leaves ≠ [] := fun e => h0 (by rw [e]; rfl)
+    split at hex
+    · cases hex
+    · split at hex
+      · cases hex
+      · cases hx : extractNode hh leaves.length (treeHeight leaves.length) 0 (unpackFlags flags) hashes with
+        | none => rw [hx] at hex; cases hex
+        | some res =>
+          obtain ⟨r, m', rb, rh⟩ := res
+          rw [hx] at hex
+          simp only [] at hex
+          split at hex
+          · cases hex
+          · split at hex
+            · cases hex
+            · simp only [Option.some.injEq, Prod.mk.injEq] at hex
+              obtain ⟨hr, hm⟩ := hex
+              subst hm
+              have hpos : 0 < width leaves.length (treeHeight leaves.length) := by
+                have hp2 : 0 < 2 ^ treeHeight leaves.length := Nat.pow_pos (by decide)
+                unfold width
+                rw [Nat.lt_div_iff_mul_lt hp2] ; omega
+              exact extractNode_sound hh dflt inj leaves _ 0 _ _ r m' rb rh hpos hx
+                (by rw [hr, calcHash_root hh dflt leaves hne hn])
+
 end BV.C20.Pmt
